@@ -46,7 +46,7 @@ let pool_case toks impl_line =
 (* ---- accept loop / server scenarios ---- *)
 type ctok = Cmd of cmd | ErrThenConnect of int | ErrThenRevoke of int | Burst of int * int
 let parse_cmd (t : string) : ctok =
-  if t = "c" || t = "C" then Cmd KConnect      (* C: the first request is an upload head without body; same transitions *)
+  if t = "c" || t = "C" || t = "x" then Cmd KConnect      (* C: the first request is an upload head without body; same transitions *)
   else if t = "r" then Cmd KRevoke
   else if t = "L" then Cmd (KErrors O)          (* a stalled global logger is installed: no transition *)
   else match strip_prefix "e" t with Some k -> Cmd (KEnd (nat (num_of k))) | None ->
@@ -59,6 +59,7 @@ let parse_cmd (t : string) : ctok =
   match strip_prefix "q" t with Some k -> Cmd (KRequest (nat (num_of k))) | None ->
   match strip_prefix "Q" t with Some k -> Cmd (KRequest (nat (num_of k))) | None ->
   match strip_prefix "l" t with Some k -> Cmd (KRelease (nat (num_of k))) | None ->
+  match strip_prefix "y" t with Some k -> Cmd (KRelease (nat (num_of k))) | None ->
   match strip_prefix "p" t with Some _ -> Cmd (KErrors O) | None ->       (* half a head: no transition *)
   match strip_prefix "u" t with Some _ -> Cmd (KErrors O) | None ->       (* head + part of the body: none *)
   match strip_prefix "f" t with Some e -> ErrThenConnect (int_of_string e) | None ->
@@ -136,8 +137,14 @@ let scen_case which full toks impl_line =
                  else "oracle=fail@capacity-not-recovered"
                end else begin
                  if oracle_c13_acc cmds (os, fo) then
-                   (if oracle_c13_conn cmds (List.map parse_totals o) then "oracle=ok"
-                    else "oracle=fail@connection-not-closed-after-response") else
+                   (if not (oracle_c13_conn cmds (List.map parse_totals o)) then "oracle=fail@connection-not-closed-after-response"
+                    (* "a request whose handler is already running still receives its complete response": after every
+                       command the clients have read at least the complete responses the model has delivered by then *)
+                    else if full && (try List.exists2 (fun i mo ->
+                        let done_of t = (match String.split_on_char ',' t with [_; _; _; _; d; _; _; _] -> int_of_string d | _ -> 0) in
+                        done_of i < done_of mo) o (List.rev obs_rev) with Invalid_argument _ -> false)
+                    then "oracle=fail@complete-response-owed-but-not-delivered"
+                    else "oracle=ok") else
                  (* label only: which clause is the first to fail *)
                  let rec label rev adm cs os = match cs, os with
                    | c :: cs', x :: os' ->
